@@ -16,7 +16,7 @@ ID = "C13"
 LEVEL = "exploration"
 ENGINE = "E1-bounded-exhaustive-inputs"
 TECHNIQUE = "bounded-exhaustive enumeration of containment trees x references x class kinds x replacement variants with recording processors/providers; tree-walk reference"
-CLAIM = ("Every forest up to N objects, every reference, user classes on/off, single- and two-file models and 7 replacement variants are loaded "
+CLAIM = ("Every forest up to N objects, every reference, user classes on/off, single- and two-file models and 9 replacement variants are loaded "
          "with recording object processors on every rule, a recording scope provider and a recording user __init__; call multiset, "
          "own-before-abstract, child-before-container, 'all processors after linking and initialisation' and the replacement of objects by "
          "non-None (including falsy) return values are compared with a walk over the generated tree.")
@@ -47,7 +47,9 @@ class Leaf:
         self.val = val
 
 
-VARIANTS = ["none", "Leaf->marker", "Leaf->0", "Item->marker", "Node->''", "Leaf+Item", "Leaf->marker(o1 only)"]
+VARIANTS = ["none", "Leaf->marker", "Leaf->0", "Item->marker", "Node->''", "Leaf+Item", "Leaf->marker(o1 only)",
+            # the same with every processor decorated by textx.textxerror_wrap (the documented way to get located errors)
+            "Leaf->marker(wrapped)", "Leaf+Item(wrapped)"]
 _S = {}
 
 
@@ -63,6 +65,7 @@ def mm_for(user, two):
 def replacement(variant, rule, obj):
     """value returned by the processor of `rule` for obj under the variant (None = no replacement)"""
     name = getattr(obj, "name", None)
+    variant = variant.replace("(wrapped)", "")
     if variant == "Leaf->marker" and rule == "Leaf":
         return Marker(("Leaf", name))
     if variant == "Leaf->0" and rule == "Leaf":
@@ -81,6 +84,7 @@ def replacement(variant, rule, obj):
 def expected_value(variant, kind, name):
     """what the containing attribute must hold after processing for an object of kind n/l"""
     cls = "Node" if kind == "n" else "Leaf"
+    variant = variant.replace("(wrapped)", "")
     own = {"Leaf->marker": "Leaf", "Leaf->0": "Leaf", "Node->''": "Node", "Leaf+Item": "Leaf", "Leaf->marker(o1 only)": "Leaf"}.get(variant)
     if own == cls and not (variant == "Leaf->marker(o1 only)" and name != "o1"):
         if variant == "Leaf->0":
@@ -116,7 +120,12 @@ def run_case(f, ref, user, variant, two=None):
             return replacement(variant, rule, obj)
         return p
 
-    mm.register_obj_processors({r: proc(r) for r in ("Model", "Item", "Node", "Leaf")})
+    if variant.endswith("(wrapped)"):
+        from textx import textxerror_wrap
+
+        mm.register_obj_processors({r: textxerror_wrap(proc(r)) for r in ("Model", "Item", "Node", "Leaf")})
+    else:
+        mm.register_obj_processors({r: proc(r) for r in ("Model", "Item", "Node", "Leaf")})
     inner = PlainNameImportURI() if two is not None else PlainName()
 
     class Prov(type(inner)):
